@@ -525,6 +525,35 @@ def _exc(e):
     return {"error": type(e).__name__}
 
 
+OTHER_SOURCES = [
+    "while True:\n    pass\n",
+    "import math\nfor i in range(10):\n    print(i + 1, 10, 3 < i <= 7)\n",
+    "def f(x):\n    return x * 2 == 4 or not x\nprint(f(1), 'a', True, 0.5)\n",
+    "from os import path\nx = [1, 2, 3]\nx.append(len(x) - 1)\n",
+]
+
+
+def distract(rng, src):
+    """Parse/search some OTHER program through the public student_code= argument (results are not judged)."""
+    other = rng.choice(OTHER_SOURCES)
+    if other == src:
+        return
+    try:
+        how = rng.randrange(4)
+        if how == 0:
+            find_asts(rng.choice(["While", "For", "Call", "Compare", "Num"]), student_code=other)
+        elif how == 1:
+            st.parse_program(other)
+        elif how == 2:
+            from pedal.cait.cait_api import find_matches
+            find_matches("_x_ = ___", student_code=other)
+        else:  # same other program twice: the second time comes from CAIT's cache
+            st.parse_program(other)
+            find_asts("Name", student_code=other)
+    except Exception:  # noqa: the distraction itself is not under test
+        pass
+
+
 def real_find(q):
     """find_asts / find_operation / find_function_calls -> list of (kind, line, col), or None if no finder."""
     kind, arg = q
